@@ -134,5 +134,5 @@ def run(ctx):
         n, rel, cfg = o['desc'].split('|')
         for law in laws:
             ctx.violation('C02|%s|%s|%s' % (cfg, law, '+'.join(sorted(set(rel.split(','))))),
-                          'correlation of a %s-column table (%s) with %s marginals violates %s' % (n, rel, cfg, law), o)
+                          'correlation of a %s-column table (%s) with %s marginals violates %s' % (n, rel, cfg, law), dict(o, rerun=['harness.props.C02._observe', list(jobs[i])]))
     ctx.exhaustive = False
